@@ -84,6 +84,7 @@ CMMaterialProp::CMMaterialProp()
     , WireD(0)
     , mu_fdx()
     , mu_fdy()
+    , MuMax(0.)
     , Frequency(0.)
 {
 }
@@ -117,6 +118,10 @@ CMMaterialProp::CMMaterialProp( const CMMaterialProp& other )
     WireD = other.WireD;
     LamFill = other.LamFill;            // lamination fill factor;
     LamType = other.LamType;            // type of lamination;
+    mu_fdx = other.mu_fdx;
+    mu_fdy = other.mu_fdy;
+    Frequency = other.Frequency;
+    MuMax = other.MuMax;                // incremental-permeability flag / maximum permeability
 }
 
 void CMMaterialProp::clearSlopes()
